@@ -999,6 +999,7 @@ def make_torch():
     d['logical_not'] = lambda a: ~wrap(a)
     d['isnan'] = lambda x: _ew1(lambda e: B('const', False), x)
     d['manual_seed'] = lambda *a: None
+    d['remainder'] = lambda a, b: _ew2(lambda u, v: mk('fmod', _lift(u), _lift(v)), a, b)  # added for C09 (same as %)
     d['minimum'] = lambda a, b: _ew2(lambda u, v: mk('min', _lift(u), _lift(v)), a, b)      # added for C09
     d['maximum'] = lambda a, b: _ew2(lambda u, v: mk('max', _lift(u), _lift(v)), a, b)      # added for C09
     # added for C18: log2 x = ln x / ln 2
@@ -1038,6 +1039,7 @@ def make_numpy():
     d['int64'] = d['int32'] = _np_int              # (C09: marked as integer dtypes for T.astype)
     d['minimum'] = lambda a, b: _ew2(lambda u, v: mk('min', _lift(u), _lift(v)), a, b)      # added for C09
     d['maximum'] = lambda a, b: _ew2(lambda u, v: mk('max', _lift(u), _lift(v)), a, b)      # added for C09
+    d['mod'] = d['remainder'] = lambda a, b: _ew2(lambda u, v: mk('fmod', _lift(u), _lift(v)), a, b)   # added for C09 (same as %)
     d['ndarray'] = _np.ndarray
     d['array'] = lambda x, *a, **k: wrap(_np.array(x, dtype=object).copy() if isinstance(x, _np.ndarray) else x)
     d['asarray'] = lambda x, *a, **k: x if isinstance(x, T) else wrap(x)
